@@ -14,6 +14,11 @@ CLAIMED = {
         note="Trusted: the syntax table (Appendix B / vlib/specgen.py) as the statement of the bitstream syntax; Lean kernel; correspondence harness.",
         design="DESIGN.md section 7 C02",
         technique="Lean 4 proof (classification table) + independent reference encoder + model/implementation correspondence"),
+    "C15": dict(
+        text="Lean 4 theorems about the model of the EMDF variable_bits codec and header (variable_bits_roundtrip for every n and every value up to the two-group maximum, size_field_roundtrip for every size <= 65791, the fixed header bits); the model's wrap is compared with the real convert_regular_rpu_to_av1_payload per size (digest), and the property is evaluated directly on the real code with a valid RPU of every payload size in the tier's set (all 24..65791 in the thorough tier), with/without 0xB5, with trailing zeros.",
+        note="Trusted: Lean kernel; correspondence harness; valid sized RPUs are built by padding the data before the CRC32.",
+        design="DESIGN.md section 7 C15",
+        technique="Lean 4 proof (arithmetic of the two-group code) + per-size model/implementation digest + exhaustive direct oracle"),
     "C13": dict(
         text="Lean 4 theorems over the executable model of add/clear_start_code_emulation_prevention_3_byte and of the start-code scan: unesc(esc p) = p for every payload with non-zero first byte, no 00 00 0[0-2] in the escaped form, every 00 00 03 is an inserted byte, a written NAL contains no start code, a written file re-splits to exactly the written units (any mixture of 3/4-byte start codes). The model is tied to the real functions exhaustively over the alphabet of the property (length <= 8 quick, <= 10 thorough) plus line-mode cases; the direct oracle runs on the real code.",
         note="Trusted: Lean kernel; model/real-code tie is differential (exhaustive over the stated alphabet, sampled beyond); hevc_parser's splitter is modelled (validated in the C05 correspondence).",
